@@ -335,6 +335,19 @@ fn main() {
         if trace {
             eprintln!("case {tag}: {}", if std::env::var("LLGV_TRACE").map(|v| v == "full").unwrap_or(false) { case.to_string() } else { trunc(&case.to_string()) });
         }
+        // input distribution: every small scalar parameter of the case (kind, mode, vocabulary kind, canonical, slices, ...)
+        // and the grammar front end, so that a generator choice that never occurs shows up as a missing key
+        if let Some(o) = case.as_object() {
+            let mut combo: Vec<String> = vec![];
+            for (k, v) in o.iter() {
+                if k == "seed" || k == "steps" || k == "budget" { continue; }
+                let sv = match v { Value::Bool(b) => Some(b.to_string()), Value::Number(n) if n.as_u64().map(|x| x < 64).unwrap_or(false) => Some(n.to_string()),
+                                   Value::String(t) if t.len() <= 16 => Some(t.clone()), _ => None };
+                if let Some(sv) = sv { rep.count(&format!("case.{k}={sv}")); if k == "vocab_kind" || k == "canonical" || k == "slices" { combo.push(format!("{k}={sv}")); } }
+                if k == "grammar" { if let Some(g) = v.as_object() { for gk in g.keys() { rep.count(&format!("case.front={gk}")); combo.push(format!("front={gk}")); } } }
+            }
+            if combo.len() > 1 { combo.sort(); rep.count(&format!("case.combo.{}", combo.join(","))); }
+        }
         let before = mb.len();
         let r = std::panic::catch_unwind(std::panic::AssertUnwindSafe(|| {
             (p.run)(&ctx, case, tag, &mut rep, &mut mb);
